@@ -3,7 +3,7 @@ from collections import Counter
 from datetime import timedelta
 
 from .. import hooks
-from ..gen import big_n, canon, exact, mk_event, rand_grid, td_us
+from ..gen import big_n, canon, exact, maybe_zone, mk_event, rand_grid, td_us
 from . import _tx
 from ._tx import exc_viol, is_event_list, iv, snap, tmod, unmodified
 
@@ -241,6 +241,7 @@ _POOLS = [
 
 
 def _events(rng, n, keys_pools, base, unit, contiguous):
+    base, unit, zone = maybe_zone(rng, base, unit)
     specs = []
     pos = 0
     for i in range(n):
@@ -262,7 +263,8 @@ def _events(rng, n, keys_pools, base, unit, contiguous):
             pos += dur
         else:
             pos = rng.randrange(0, 50) * unit
-        specs.append(dict(ts=ts, dur=dur, data=data, **({"id": i} if rng.random() < 0.5 else {})))
+        specs.append(dict(ts=ts, dur=dur, data=data, **({"id": i} if rng.random() < 0.5 else {}),
+                          **({"zone": zone} if zone and rng.random() < 0.7 else {})))
     if specs and rng.random() < 0.3:
         specs.append(dict(rng.choice(specs)))
     return specs
